@@ -2,7 +2,8 @@ INIT GenInit
 NEXT GenNext
 CONSTANTS
   Goroutines = {8, 32}
-  Ops = {150}
+  Calls = {2400}
+  Reps = {1}
   Shared = {2}
   MixNames = {"create", "log", "balanced"}
   Closers = {}
